@@ -200,6 +200,13 @@ func (e *kvElection) Start(ctx context.Context) error {
 		return ErrAlreadyStarted
 	}
 
+	// The context of the previous run was cancelled by its caller, which ends
+	// the loops but not the term: the claim still stands. Starting over it
+	// would report CANDIDATE and leadership at once; Stop ends it properly.
+	if e.isLeader.Load() {
+		return ErrAlreadyStarted
+	}
+
 	e.ctx, e.cancel = context.WithCancel(ctx)
 
 	if e.connectionMonitor != nil {
